@@ -300,6 +300,11 @@ func rewrite(j *fileJob, stats map[string]int) ([]byte, bool, error) {
 
 	if j.sync {
 		rewriteGo(f)
+		if n := rewriteChan(f); n > 0 {
+			need["zzsched"] = modPath + "/zzverif/vsched"
+			changed = true
+			stats["chan_ops"] += n
+		}
 	}
 	if j.rmw {
 		if n := rewriteRMW(fset, f, rel); n > 0 {
@@ -608,6 +613,117 @@ func rewriteRMW(fset *token.FileSet, f *ast.File, rel string) int {
 				mk(tmp),
 			}}
 			n++
+		}
+		return true
+	})
+	return n
+}
+
+// rewriteChan: receive expressions -> zzsched.RecvV / RecvV2, send statements -> zzsched.SendF, close(ch) -> zzsched.CloseF.
+// select statements are left alone (their comm clauses must stay channel operations).
+func rewriteChan(f *ast.File) int {
+	n := 0
+	sel := func(name string) ast.Expr { return &ast.SelectorExpr{X: ast.NewIdent("zzsched"), Sel: ast.NewIdent(name)} }
+	inSelect := map[ast.Node]bool{}
+	ast.Inspect(f, func(nd ast.Node) bool {
+		if cc, ok := nd.(*ast.CommClause); ok && cc.Comm != nil {
+			ast.Inspect(cc.Comm, func(x ast.Node) bool {
+				if x != nil {
+					inSelect[x] = true
+				}
+				return true
+			})
+		}
+		return true
+	})
+	// two-value receives first: v, ok := <-ch
+	ast.Inspect(f, func(nd ast.Node) bool {
+		as, ok := nd.(*ast.AssignStmt)
+		if !ok || inSelect[as] || len(as.Lhs) != 2 || len(as.Rhs) != 1 {
+			return true
+		}
+		if u, ok := as.Rhs[0].(*ast.UnaryExpr); ok && u.Op == token.ARROW {
+			as.Rhs[0] = &ast.CallExpr{Fun: sel("RecvV2"), Args: []ast.Expr{u.X}}
+			n++
+		}
+		return true
+	})
+	var fix func(e *ast.Expr)
+	fix = func(e *ast.Expr) {
+		if u, ok := (*e).(*ast.UnaryExpr); ok && u.Op == token.ARROW && !inSelect[u] {
+			*e = &ast.CallExpr{Fun: sel("RecvV"), Args: []ast.Expr{u.X}}
+			n++
+		}
+	}
+	ast.Inspect(f, func(nd ast.Node) bool {
+		switch t := nd.(type) {
+		case *ast.ExprStmt:
+			fix(&t.X)
+		case *ast.AssignStmt:
+			for i := range t.Rhs {
+				fix(&t.Rhs[i])
+			}
+		case *ast.ReturnStmt:
+			for i := range t.Results {
+				fix(&t.Results[i])
+			}
+		case *ast.CallExpr:
+			for i := range t.Args {
+				fix(&t.Args[i])
+			}
+		case *ast.ValueSpec:
+			for i := range t.Values {
+				fix(&t.Values[i])
+			}
+		case *ast.BinaryExpr:
+			fix(&t.X)
+			fix(&t.Y)
+		case *ast.IfStmt:
+			fix(&t.Cond)
+		}
+		return true
+	})
+	// statements in lists: send and close
+	generated := map[ast.Node]bool{}
+	ast.Inspect(f, func(nd ast.Node) bool {
+		if nd != nil && generated[nd] {
+			return false
+		}
+		var list []ast.Stmt
+		switch t := nd.(type) {
+		case *ast.BlockStmt:
+			list = t.List
+		case *ast.CaseClause:
+			list = t.Body
+		case *ast.CommClause:
+			list = t.Body
+		default:
+			return true
+		}
+		for i, st := range list {
+			switch t := st.(type) {
+			case *ast.SendStmt:
+				thunk := &ast.FuncLit{Type: &ast.FuncType{Params: &ast.FieldList{}}, Body: &ast.BlockStmt{List: []ast.Stmt{&ast.SendStmt{Chan: t.Chan, Value: t.Value}}}}
+				generated[thunk] = true
+				list[i] = &ast.ExprStmt{X: &ast.CallExpr{Fun: sel("SendF"), Args: []ast.Expr{t.Chan, thunk}}}
+				n++
+			case *ast.ExprStmt:
+				if call, ok := t.X.(*ast.CallExpr); ok {
+					if id, ok := call.Fun.(*ast.Ident); ok && id.Name == "close" && len(call.Args) == 1 && id.Obj == nil {
+						thunk := &ast.FuncLit{Type: &ast.FuncType{Params: &ast.FieldList{}}, Body: &ast.BlockStmt{List: []ast.Stmt{&ast.ExprStmt{X: &ast.CallExpr{Fun: ast.NewIdent("close"), Args: []ast.Expr{call.Args[0]}}}}}}
+						generated[thunk] = true
+						list[i] = &ast.ExprStmt{X: &ast.CallExpr{Fun: sel("CloseF"), Args: []ast.Expr{call.Args[0], thunk}}}
+						n++
+					}
+				}
+			case *ast.DeferStmt:
+				if id, ok := t.Call.Fun.(*ast.Ident); ok && id.Name == "close" && len(t.Call.Args) == 1 && id.Obj == nil {
+					thunk := &ast.FuncLit{Type: &ast.FuncType{Params: &ast.FieldList{}}, Body: &ast.BlockStmt{List: []ast.Stmt{&ast.ExprStmt{X: &ast.CallExpr{Fun: ast.NewIdent("close"), Args: []ast.Expr{t.Call.Args[0]}}}}}}
+					generated[thunk] = true
+					t.Call = &ast.CallExpr{Fun: sel("CloseF"), Args: []ast.Expr{t.Call.Args[0], thunk}}
+					n++
+				}
+			}
 		}
 		return true
 	})
